@@ -17,8 +17,8 @@ theorem parse_total (bs : Bytes) (h : bs.length < two63) : âˆ€ p, parseBoc bs â‰
   (parseBocM_spec bs h).no_panic
 
 /-- Memory in proportion to the input: the bytes requested through `make`/`Newâ€¦` while parsing (also on the paths
-that end in an error) are at most 189 per input byte plus 8. No allocation is sized by an unchecked header field. -/
-theorem parse_alloc (bs : Bytes) (h : bs.length < two63) : parseAlloc bs â‰¤ 189 * bs.length + 8 := by
+that end in an error) are at most 317 per input byte plus 8. No allocation is sized by an unchecked header field. -/
+theorem parse_alloc (bs : Bytes) (h : bs.length < two63) : parseAlloc bs â‰¤ 317 * bs.length + 8 := by
   have hs := parseBocM_spec bs h
   unfold parseAlloc M.run
   unfold Spec at hs
